@@ -341,6 +341,8 @@ class Statement(object):
 
             start_address = statements[this_index].code_pkg.address.int
             jump_amount = relative_address - start_address - self.code_pkg.size
+            # addresses wrap at 64K: the displacement is the signed 16-bit distance
+            jump_amount = ((jump_amount + 0x8000) & 0xFFFF) - 0x8000
             if self.pcr_size_hint == 4:
                 # two's complement at 16 bits: a negative NumericValue is only widened below -128
                 jump_amount &= 0xFFFF
